@@ -62,12 +62,19 @@ package mvp6_1
 //@   ensures len(m.decodeBus.queue) == 0 && len(m.decodeBus.buffer) == 0 && len(m.controlBus.queue) == 0 && len(m.controlBus.buffer) == 0 && len(m.executeBus.queue) == 0 && len(m.executeBus.buffer) == 0 && len(m.writeBus.queue) == 0 && len(m.writeBus.buffer) == 0
 //@   ensures len(m.ctx.PendingWriteRegisters) == 0 && len(m.ctx.PendingReadRegisters) == 0
 //@   ensures m.controlUnit.pendings != nil && fresh(m.controlUnit.pendings) && !m.controlUnit.pendingConditionalBranch && m.controlUnit.pushedRunnersInPreviousCycle == nil
+// (C03, C07; F32) no line stays marked as being fetched: the units that would
+// have delivered it are reset
+//@   ensures len(m.memoryManagementUnit.pendings) == 0
 //@   loop 0: invariant wired(m) && m.executeUnits == old(m.executeUnits) && (forall i :: 0 <= i && i < _idx0 ==> m.executeUnits[i].Coroutine.isStart)
 //@   loop 0: invariant m.fetchUnit.pc == pc && !m.fetchUnit.complete && !m.decodeUnit.pendingBranchResolution && !m.decodeUnit.ret
 
 // Run (C09): every exit of the main loop happens with all older write-backs
 // done and (second exit clause) every execute unit idle. (C12) the cycle
 // counter is positive when the loop is left.
+// (C07; F31) nothing the queue could take is left in the bus buffer (what
+// Connect establishes): invariant of the write-back drain inside the flush
+// path (loops 8, 9 of Run), which otherwise never ends.
+//@ spec func connected(b *comp.BufferedBus[risc.ExecutionContext], c int) bool = len(b.buffer) > 0 ==> len(b.queue) == b.queueLength || b.buffer[0].availableFromCycle > c
 //@ func (*CPU).Run
 //@   assume-before (*memoryManagementUnit).flush: wfMMU(m.memoryManagementUnit) && m.memoryManagementUnit.l3.lineLength == 64 && allocated(m.memoryManagementUnit.ctx.Memory) && (forall j :: 0 <= j && j < len(m.memoryManagementUnit.l3.lines) ==> !sameArray(m.memoryManagementUnit.l3.lines[j].Data, m.memoryManagementUnit.ctx.Memory) && int32(m.memoryManagementUnit.l3.lines[j].Boundary[0]) <= 1073741824)
 //@   requires wired(m)
@@ -86,8 +93,8 @@ package mvp6_1
 //@   loop 5: invariant cycle >= 1 && wired(m)
 //@   loop 6: invariant cycle >= 1 && wired(m)
 //@   loop 7: invariant cycle >= 1 && wired(m)
-//@   loop 8: invariant cycle >= 1 && wired(m)
-//@   loop 9: invariant cycle >= 1 && wired(m)
+//@   loop 8: invariant cycle >= 1 && wired(m) && connected(m.writeBus, cycle + 1)
+//@   loop 9: invariant cycle >= 1 && wired(m) && connected(m.writeBus, cycle + 1)
 //@   loop 10: invariant cycle >= 1 && wired(m)
 //@   loop 11: invariant cycle >= 1 && wired(m)
 //@   loop 12: invariant cycle >= 1 && wired(m)
